@@ -411,9 +411,9 @@ def run(ctx):
                                "python harness (DKVP encode/decode with IFS ';' IPS ':', case rendering)",
                                "DSL expression evaluation is abstracted to one verdict per record (observed through put -q print)",
                                "regex library abstracted to a matcher parameter; literal patterns in the correspondence"]
-    ctx.assumptions = ["uniq -a: the JSON text used as map key determines the record", "random draws are an arbitrary oracle list in the model"]
+    ctx.assumptions = ["uniq -a: the JSON text used as map key determines the record", "random draws are an arbitrary oracle list in the model (at least one draw per record for sample)"]
     forbidden_gate(ctx, ["Base", "C11"])
-    ok, why = check_props(ctx, "C11/Props.v", ["C11/Harness.vo", "C11/Proofs.vo", "C11/CheckerProofs.vo"])
+    ok, why = check_props(ctx, "C11/Props.v", ["C11/Harness.vo", "C11/Proofs.vo", "C11/Proofs2.vo", "C11/CheckerProofs.vo", "C11/SampleProofs.vo"])
     cases = gen_cases(ctx)
     fcases = gen_filter_cases(ctx)
     with ctx.timed("impl"):
@@ -493,6 +493,7 @@ def run(ctx):
                                             "argv": args, "input": show(inp), "observed": show(out), "zargs": zs}, found_input=False) else 0
         if reported >= 3:
             break
+    oracle_bad.sort(key=lambda v: len(v.get("input", [])))       # smallest witness of each class first
     seen_cls = {}
     for v in oracle_bad:
         key = (v.get("class"), v.get("law") if v.get("class") == "other" else "")
